@@ -109,5 +109,37 @@ def xdispatch {α : Type} [Add α] [Sub α] [Mul α] [Div α] [Neg α] [NatCast 
   | .error e => .error e
   | .ok xs => dispatch ys xs
 
+/-! ### the mask of a Spectrum-valued extrapolation
+The k-point formulas are polymorphic, so the very same generated `dispatch` can be run on *mask bits* instead of numbers:
+`MaskV corner` is what one entry of an operand looks like to the arithmetic of `Spectrum` (a Spectrum entry with its mask
+bit, or a plain number such as an x value), and every operation is the generated `specArithMask` (the binary-arithmetic
+template of dadi/Spectrum_mod.py; a number on the left reaches the reflected method of the Spectrum on the right). -/
+
+inductive MaskV (corner : Bool) where
+  | fs : Bool → MaskV corner
+  | num : MaskV corner
+deriving DecidableEq, Repr
+
+def MaskV.op {c : Bool} : MaskV c → MaskV c → MaskV c
+  | .fs a, .fs b => .fs (specArithMask c a (some b))
+  | .fs a, .num => .fs (specArithMask c a none)
+  | .num, .fs b => .fs (specArithMask c b none)
+  | .num, .num => .num
+
+instance {c : Bool} : Add (MaskV c) := ⟨MaskV.op⟩
+instance {c : Bool} : Sub (MaskV c) := ⟨MaskV.op⟩
+instance {c : Bool} : Mul (MaskV c) := ⟨MaskV.op⟩
+instance {c : Bool} : Div (MaskV c) := ⟨MaskV.op⟩
+instance {c : Bool} : Neg (MaskV c) := ⟨id⟩
+instance {c : Bool} : NatCast (MaskV c) := ⟨fun _ => .num⟩
+
+/-- mask bit of one entry (a corner or not) of the extrapolation of k Spectrum-valued results whose mask bits at that entry
+    are `masks`, the x values being plain numbers: the generated dispatch and formulas, run on mask bits.
+    `none`: the call is refused (count outside the table) or the result is not a Spectrum. -/
+def maskResult (corner : Bool) (masks : List Bool) : Option Bool :=
+  match dispatch (α := MaskV corner) (masks.map MaskV.fs) (masks.map fun _ => MaskV.num) with
+  | .ok (.fs m) => some m
+  | _ => none
+
 end Extrap
 end DadiVerif
